@@ -30,7 +30,7 @@ LEVEL = "exploration"
 RULE = ("Hypothesis-drawn cases: hops 1..3, 0..3 manipulations of the n-th plaintext created cell on the wire (flip in "
         "identifier / key / auth / candidates / circuit id; ephemeral substitution with valid auth; swap with the created "
         "of a concurrently built circuit; replay of an earlier created after a retry; duplicate; delay past "
-        "next_hop_timeout; drop), optional second concurrent circuit. Non-trivial = a manipulated created/extended reaches "
+        "next_hop_timeout; drop), optional second concurrent circuit, next_hop_timeout 10 s (default) or 3 s. Non-trivial = a manipulated created/extended reaches "
         "the originator (or its relay) while a retry cache for that circuit is outstanding; distinct = (hops, manipulation "
         "types and targets, outcome).")
 ASSUMPTIONS = [
@@ -87,7 +87,9 @@ class Run:
         from ipv8.keyvault.crypto import default_eccrypto
         c = self.case
         hops = c["hops"]
-        w = World(loop, hops + 2)
+        # next_hop_timeout: the production default (10 s) or a shorter drawn value - with a shorter one an answer to an
+        # abandoned attempt can still find the relay's pending-extend record alive
+        w = World(loop, hops + 2, next_hop_timeout=c.get("nht", 10))
         self.w = w
         manips = {m["nth"]: m for m in c["manips"]}
         attacker = default_eccrypto.generate_key("curve25519")
@@ -190,9 +192,11 @@ class Run:
             if circuits[0] is None:
                 self.fail("K1", "build", "no circuit could be started on a full mesh")
             replayed = False
+            self.worked: dict[int, bool] = {}
             for _ in range(80):
                 await asyncio.sleep(1.0)
                 self.check_established(origin, circuits)
+                await self.probe(loop, origin, circuits, final=False)
                 if self.replay_later is not None and not replayed and loop.time() - vloop.EPOCH > \
                         origin.overlay.settings.next_hop_timeout + 1:
                     src, dst, data = self.replay_later
@@ -207,9 +211,44 @@ class Run:
                 e = w.net.escaped[0][3]
                 self.fail("K2", "exception:" + type(e).__name__, f"{type(e).__name__}: {e} escaped the receive path")
             self.judge(origin, circuits)
+            await self.probe(loop, origin, circuits, final=True)
         finally:
             w.net.on_send = None
             await w.close()
+
+    async def probe(self, loop, origin, circuits, final: bool) -> None:
+        """
+        K5: once a circuit is ready and really ends at the peer the originator names as last hop (data sent into it
+        leaves through an outside socket of that node), later handshake messages must not change that - e.g. a late
+        answer of an abandoned attempt reaching a relay must not re-point the established hop behind the originator's
+        back. The first probe is taken when the circuit is first seen ready, the second at the end of the case.
+        """
+        w = self.w
+        for n, ci in enumerate(circuits):
+            if ci is None or ci.state != "READY" or ci.circuit_id not in origin.overlay.circuits:
+                continue
+            if not final and id(ci) in self.worked:
+                continue
+            if final and not self.worked.get(id(ci)):
+                continue      # never worked (e.g. sabotaged by substituted key material): nothing established to protect
+            last = w.by_key.get(ci.hops[-1].peer.public_key.key_to_bin())
+            payload = b"d5:probe1:%d1:%de" % (n, int(final))
+            before = {id(t): len(t.sent) for t in loop.transports}
+            origin.overlay.send_data(ci.hop.address, ci.circuit_id, ("5.5.5.5", 5000 + n), ("0.0.0.0", 0), payload)
+            await asyncio.sleep(0.3)
+            where = []
+            for t in loop.transports:
+                if any(d == payload for d, _ in t.sent[before.get(id(t), 0):]):
+                    sock = getattr(getattr(t.protocol, "received_cb", None), "__self__", None)
+                    owner = getattr(sock, "overlay", None)
+                    where.append(next((nd.idx for nd in w.nodes if nd.overlay is owner), None))
+            ok = where == [last.idx if last is not None else None]
+            if not final:
+                self.worked[id(ci)] = ok
+            elif not ok:
+                self.fail("K5", "established_hop_repointed",
+                          f"circuit {n} was ready and ended at node {last.idx if last else None}; after the remaining handshake "
+                          f"traffic had been delivered, data sent into it left at nodes {where} (manipulations {self.applied})")
 
     def check_established(self, origin, circuits) -> None:
         for ci in circuits:
@@ -229,6 +268,7 @@ class Run:
         c = self.case
         honest = not self.applied
         outcome = []
+        self.keys_agree: dict[int, list] = {}
         for ci in circuits:
             if ci is None:
                 continue
@@ -281,6 +321,7 @@ class Run:
                              list(node.overlay.relay_from_to.values()) if e.hop.keys is not None]
                 same = any(bytes(k2.key_forward) == bytes(h.keys.key_forward) and
                            bytes(k2.key_backward) == bytes(h.keys.key_backward) for k2 in peer_side)
+                self.keys_agree.setdefault(id(ci), []).append(same)
                 if honest and not same:
                     self.fail("K1", "key_agreement", f"after an honest exchange the selected node does not hold the keys "
                                                      f"the originator holds for hop {k + 1}")
@@ -309,6 +350,7 @@ def _strategy():
         "seed": st.integers(0, 10000),
         "second": st.booleans(),
         "manips": st.lists(manip, max_size=3, unique_by=lambda m: m["nth"]),
+        "nht": st.sampled_from([10, 10, 3]),
     })
 
 
@@ -325,7 +367,7 @@ def _grid_shard(ctx: Ctx, shard: int, nshards: int) -> None:
                     k += 1
                     if k % nshards != shard:
                         continue
-                    case = {"hops": hops, "seed": 11 + k, "second": kind == "swap_other",
+                    case = {"hops": hops, "seed": 11 + k, "second": kind == "swap_other", "nht": 3 if arg == 7 else 10,
                             "manips": [{"nth": nth + (1 if kind == "swap_other" else 0), "type": kind, "arg": arg}]}
                     try:
                         run_case(ctx, case)
